@@ -32,7 +32,7 @@ import (
 
 func cases(tier string) int {
 	if tier == "thorough" {
-		return 12000
+		return 60000
 	}
 	return 1200
 }
